@@ -21,8 +21,8 @@ St == Tr[tid][l]
 Begin ==
     /\ l <= Len(Tr[tid]) /\ j = 0
     /\ j' = 1
-    /\ asked' = (asked \/ St.op \in {"cdisc", "sdisc"})
-    /\ CASE St.op = "csend" -> /\ csent' = csent + Len(St.a.acc)
+    /\ asked' = (asked \/ St.op \in {"cdisc", "sdisc", "csendcdisc"})
+    /\ CASE St.op \in {"csend", "csendcdisc"} -> /\ csent' = csent + Len(St.a.acc)
                                /\ (Len(St.a.acc) > 0 => cup)
                                /\ UNCHANGED <<ssent, crecv, srecv, cup, sup, cconns, sconns, cdiscs, sdiscs>>
          [] St.op = "ssend" -> /\ ssent' = ssent + Len(St.a.acc)
